@@ -40,8 +40,33 @@ func ownerOfPass(s *kmodel.Store, pass *world.Pass) (world.Ident, int64, bool) {
 	return world.IdentOf(k, o.Content), rev, true
 }
 
+// revisionIn answers the revision of the live ObjectSet / ObjectSetPhase an owner entry names (0 when gone).
+func revisionIn(s *kmodel.Store) func(world.Ident) int64 {
+	return func(id world.Ident) int64 {
+		var k kmodel.Key
+		switch id.Kind {
+		case "ObjectSet":
+			k = osw.OSKey(id.Name)
+		case "ObjectSetPhase":
+			k = world.PKOKey("ObjectSetPhase", world.NS, id.Name)
+		default:
+			return 0
+		}
+		o := s.Objs[k]
+		if o == nil || kmodel.UID(o.Content) != id.UID {
+			return 0
+		}
+		if k.Kind == "ObjectSetPhase" {
+			v, _ := world.Nested(o.Content, "spec", "revision")
+			r, _ := v.(int64)
+			return r
+		}
+		return osw.StatusRevision(o.Content)
+	}
+}
+
 // judgeRequests is the per-request part of the monitor (also used by the interleaving sub).
-func judgeRequests(pass *world.Pass, self world.Ident, selfRev func() int64) []world.Finding {
+func judgeRequests(pass *world.Pass, self world.Ident, selfRev func() int64, revOf func(world.Ident) int64) []world.Finding {
 	var out []world.Finding
 	bad := func(id, f string, a ...any) {
 		out = append(out, world.Finding{Monitor: "handover", Identity: id, Message: fmt.Sprintf(f, a...)})
@@ -71,6 +96,11 @@ func judgeRequests(pass *world.Pass, self world.Ident, selfRev func() int64) []w
 			for _, pc := range preCtrls {
 				if pc.UID == self.UID {
 					continue
+				}
+				// independent of what the annotation says: the object moves backwards when
+				// the controller it is taken from is a live revision newer than the taker
+				if pr := revOf(world.Ident{Group: pc.Group, Kind: pc.Kind, Name: pc.Name, UID: pc.UID}); pr != 0 && selfRev() != 0 && pr > selfRev() {
+					bad("took-object-from-newer-revision", "request #%d %s: %s/%s (revision %d) takes control from %s/%s of revision %d", i, r, self.Kind, self.Name, selfRev(), pc.Kind, pc.Name, pr)
 				}
 				kept := false
 				for _, o := range world.Owners(r.Post, false) {
@@ -103,7 +133,7 @@ func Check(before *world.World, _ world.Event, pass *world.Pass, after *world.Wo
 		}
 		_, r2, _ := ownerOfPass(after.S, pass)
 		return r2
-	})
+	}, revisionIn(before.S))
 }
 
 // Invariant: no object is controlled by an ObjectSet (or phase) whose revision is lower than
@@ -163,10 +193,14 @@ type scenario struct {
 	// RV0: the cluster's resourceVersion counter starts here (so that versions cross a digit
 	// boundary, 9 -> 10 / 99 -> 100, at different points of the history)
 	RV0 int64 `json:"rv0"`
+	// Preset: the manifest of object "a" in revision r2 carries this value in the
+	// package-operator.run/revision annotation (a manifest exported from a live cluster);
+	// the recorded revision must still be the adopting revision's own
+	Preset string `json:"preset"`
 }
 
 func (sc scenario) name() string {
-	return fmt.Sprintf("%s delegated=%03b cp=%s users=%d edits=%d restarts=%d conflicts=%d longLived=%v rv0=%d", sc.Kind, sc.Mask, sc.CP, sc.Users, sc.Edits, sc.Restarts, sc.Conflicts, sc.LongLived, sc.RV0)
+	return fmt.Sprintf("%s delegated=%03b cp=%s users=%d edits=%d restarts=%d conflicts=%d longLived=%v rv0=%d preset=%q", sc.Kind, sc.Mask, sc.CP, sc.Users, sc.Edits, sc.Restarts, sc.Conflicts, sc.LongLived, sc.RV0, sc.Preset)
 }
 
 var chainObjs = [][]string{{"a", "b"}, {"a", "b", "c"}, {"a", "c", "d"}}
@@ -179,6 +213,15 @@ func mkRevision(w *world.World, i int, sc scenario, prev ...string) {
 		for pi := range ps {
 			for oi := range ps[pi].Objects {
 				ps[pi].Objects[oi].CollisionProtection = corev1(sc.CP)
+			}
+		}
+	}
+	if sc.Preset != "" && i == 1 {
+		for pi := range ps {
+			for oi := range ps[pi].Objects {
+				if o := &ps[pi].Objects[oi].Object; o.GetName() == "a" {
+					o.SetAnnotations(map[string]string{world.RevisionAnnotation: sc.Preset})
+				}
 			}
 		}
 	}
@@ -275,6 +318,8 @@ func scenarios(quick bool) []scenario {
 		{Kind: "chain2", Restarts: 1, Conflicts: 1},
 		{Kind: "chain2", Mask: 0b10, Restarts: 1},
 		{Kind: "chain2", LongLived: true},
+		{Kind: "chain2", CP: "None", Preset: "1"},
+		{Kind: "chain2", Preset: "9"},
 		{Kind: "chain3", LongLived: true},
 		{Kind: "chain2", LongLived: true, RV0: 90},
 		{Kind: "chain3", LongLived: true, RV0: 985},
@@ -381,7 +426,7 @@ func ilBody(sc ilScenario) explore.Body {
 					return osw.StatusRevision(o.Content)
 				}
 				return osw.StatusRevision(before.Objs[k].Content) // the revision is gone after its teardown
-			}) {
+			}, revisionIn(before)) {
 				viol = append(viol, f.Message)
 				ctx.Log = append(ctx.Log, p.Trace()...)
 			}
